@@ -503,6 +503,9 @@ class Fn:
             if n[0] == 'tuple' and name.isdigit() and int(name) < len(n[1]):
                 out |= n[1][int(name)]
                 continue
+            if n[0] == 'closure' and name.isdigit() and int(name) < len(n[2]):
+                out |= n[2][int(name)]          # captured variable k of a closure literal (after closure inlining)
+                continue
             if n[0] == 'clone':
                 # field of a clone = clone of the field
                 out.add(('clone', T(('field', n[1], name))))
